@@ -272,6 +272,11 @@ def run(ctx):
         es = hc.edits(t, rng)
         rng.shuffle(es)
         edit_pairs += es[:4]
+    # order is structure: every order swap of these, always
+    for src in ["f(a=1, b=2)", "Select(ds, lambda e: e.jets(cut=1, kind='x'))", "e.m(1, x=e.a, y=e.b, **k)", "{'a': 1, 'b': 2}", "(a, b)", "[1, 2, 3]",
+                "{a, b}", "Select(ds, lambda e: {'x': e.a, 'y': e.b})", "ResultTTree(ds, ['a', 'b'], 't', 'f')", "f(g(x), y)", "a - b", "a < b"]:
+        t = ast.parse(src, mode="eval").body
+        edit_pairs += [e for e in hc.edits(t, rng) if e[0].startswith("swap-") or e[0] == "re-nest"]
     trees = [(o, t) for o, t in pool] + [("decorated", d) for _, d in deco]
     for k, a, b in edit_pairs:
         trees.append(("edited", a))
